@@ -382,6 +382,8 @@ class World:
             raise RuntimeError("pub callback raises (harness)")
 
     def _sub(self, topic, callback, qos):
+        if qos not in (0, 1, 2):
+            raise ValueError("Invalid QoS level.")  # what an MQTT client library does
         if self._obs is not None:
             self._obs.subs.append((topic, qos))
         self.all_subs.append((topic, qos))
